@@ -691,7 +691,7 @@ def host_members(rng, space, inner=None, big_arrays=False):
                 t = rng.choice([{"k": "struct", "name": inner}, {"k": "array", "n": 2, "e": {"k": "struct", "name": inner}}])
             else:
                 t = rand_leaf(rng)
-        mem.append({"name": ("_pad%d" % j if rng.random() < 0.12 else "_padding" if rng.random() < 0.03 and not any(m["name"] == "_padding" for m in mem) else "f%d" % j), "ty": t})
+        mem.append({"name": ("gen" if rng.random() < 0.03 and not any(m["name"] == "gen" for m in mem) else "_pad%d" % j if rng.random() < 0.12 else "_padding" if rng.random() < 0.03 and not any(m["name"] == "_padding" for m in mem) else "f%d" % j), "ty": t})
     return mem
 
 
@@ -900,6 +900,10 @@ def role_shader0(rng, big_arrays=True, entry_names=False):
         st = [x for x in S["structs"] if x["name"] == "Store"][0]
         S["structs"].append({"name": "StoreTwin", "members": json_copy(st["members"])})
         bind("store_twin", "storage_r", {"k": "struct", "name": "StoreTwin"})
+    if rng.random() < 0.2:
+        # a struct that lives only in function-local variables, handed to a helper by pointer (never host-visible)
+        S["structs"].append({"name": "LocalOnly", "members": [{"name": "t0", "ty": {"k": "vec", "n": 3, "s": "f32"}}, {"name": "t1", "ty": {"k": "scalar", "s": "u32"}}]})
+        S["functions"].append({"name": "by_ptr", "ret": True, "ptr": True, "ptr_struct": "LocalOnly", "body": []})
     # variables without a binding may be declared anywhere between the resources
     plain = [g_ for g_ in S["globals"] if "group" not in g_]
     if plain and rng.random() < 0.6:
@@ -918,6 +922,10 @@ def role_shader0(rng, big_arrays=True, entry_names=False):
         S["structs"].append({"name": "ComputeInput", "members": [{"name": "gid", "ty": {"k": "vec", "n": 3, "s": "u32"}, "io": {"k": "builtin", "b": "global_invocation_id"}}]
                              + ([{"name": "lidx", "ty": {"k": "scalar", "s": "u32"}, "io": {"k": "builtin", "b": "local_invocation_index"}}] if rng.random() < 0.5 else [])})
         cparams.append({"k": "struct", "name": "cin", "ty": "ComputeInput"})
+    if rng.random() < 0.25 and any(x["name"] in ("ComputeInput", "VertexIndices") for x in S["structs"]):
+        # a struct made of builtins only that is also the type of a storage variable
+        nm_ = [x["name"] for x in S["structs"] if x["name"] in ("ComputeInput", "VertexIndices")][0]
+        bind("builtin_buf", "storage_r", {"k": "struct", "name": nm_})
     S["entries"].append({"name": "vs_main", "stage": "vertex", "params": vparams, "result": vres, "body": uses("vertex"), "wg": []})
     if rng.random() < 0.3 and vparams:
         S["entries"].append({"name": "vs_shadow", "stage": "vertex", "params": list(reversed(vparams)), "result": {"k": "builtin", "b": "position"}, "body": uses("vertex"), "wg": []})
@@ -939,7 +947,7 @@ def role_shader0(rng, big_arrays=True, entry_names=False):
             S["entries"].append({"name": "cs_main", "stage": "compute", "params": cparams, "body": uses("compute"), "wg": rng.choice([["WG_N"], ["8", "WG_N"], ["WG_N * 2u", "1", "WG_N"]])})
         else:
             S["entries"].append({"name": "cs_main", "stage": "compute", "params": cparams, "body": uses("compute"), "wg": [str(rng.choice([1, 8, 64]))] + ([str(rng.choice([1, 4]))] if rng.random() < 0.5 else [])})
-    if cparams and not any(e["stage"] == "compute" for e in S["entries"]):
+    if cparams and not any(e["stage"] == "compute" for e in S["entries"]) and not any(g_["ty"].get("name") == "ComputeInput" for g_ in S["globals"]):
         S["structs"] = [x for x in S["structs"] if x["name"] != "ComputeInput"]
     if entry_names:
         for e in S["entries"]:
@@ -975,6 +983,9 @@ def rename_structs(S, rng):
     for c_ in S.get("consts", []):
         for a, b in mp.items():
             c_["expr"] = _re.sub(r"\b%s\b" % _re.escape(a), b, c_["expr"])
+    for f_ in S.get("functions", []):
+        if f_.get("ptr_struct") in mp:
+            f_["ptr_struct"] = mp[f_["ptr_struct"]]
     for d in S["structs"]:
         d["name"] = mp[d["name"]]
         fix(d["members"])
@@ -1251,6 +1262,15 @@ def const_table(rng):
         add("i32", str(v), "i32:%d" % v)
         add(None, "%di" % v if v >= 0 else "-%di" % -v, "i32:%d" % v)
     add("i32", "-2147483647 - 1", "i32:-2147483648")
+    for v in [100000, 1000000, 1048576, 1000001, 100100, 10000000, 20000003, 1000000000]:
+        add("i32", str(v), "i32:%d" % v)
+        add(None, "%du" % v, "u32:%d" % v)
+        add("i32", "-%d" % v, "i32:-%d" % v)
+    add(None, "1000000000000li", "i64:1000000000000")
+    add(None, "9223372036854775808lu", "u64:9223372036854775808")
+    add(None, "10000000000000000000lu", "u64:10000000000000000000")
+    add("f32", "1000000.0", "f32:" + f32_bits(1000000.0))
+    add("f32", "100100.5", "f32:" + f32_bits(100100.5))
     add("i32", "1 << 4", "i32:16")
     add("i32", "7 / 2", "i32:3")
     add("i32", "-7 % 3", None)
